@@ -615,7 +615,7 @@ Proof.
   - rewrite (plain_erase o P), (plain_proj o _ P).
     rewrite (bstep_plain T σ1 o P), (bstep_plain T σ2 o P), Hbs; cbn [fst snd bs cs_].
     split; [split; [reflexivity | exact Hcs] | reflexivity].
-  - destruct o as [? ?|? ?|? ?|? ? ?|? ?|?|vb vf|? ?|?|?|? ?|? ?|? ? ? ?|? ?|?|nf nlive ncap]; try discriminate P;
+  - destruct o as [? ?|? ?|? ?|? ? ?|? ?|?|vb vf|? ?|? ?|?|?|? ?|? ?|? ? ? ?|? ?|?|nf nlive ncap]; try discriminate P;
       cbn [erase proj step_has_cache step_in] in *.
     + (* BVerifyCached *)
       cbn [bstep]. rewrite <- Hbs.
@@ -672,7 +672,7 @@ Proof.
   - rewrite (plain_declared fs o r P) in Hd. split.
     + destruct o; try discriminate P; exact I.
     + apply (IH fs); [|exact Hd]. rewrite (plain_cs T σ o P). exact Hfs.
-  - destruct o as [? ?|? ?|? ?|? ? ?|? ?|?|vb vf|? ?|?|?|? ?|? ?|? ? ? ?|? ?|?|nf nlive ncap]; try discriminate P;
+  - destruct o as [? ?|? ?|? ?|? ? ?|? ?|?|vb vf|? ?|? ?|?|?|? ?|? ?|? ? ? ?|? ?|?|nf nlive ncap]; try discriminate P;
       cbn [declared] in Hd.
     + (* BVerifyCached *)
       apply andb_true_iff in Hd as [Hm Hd]. apply existsb_exists in Hm as (f0 & I0 & E0).
